@@ -1,4 +1,4 @@
-"""C06 - equivalent entry points give equivalent answers (clause: io::Read entry vs slice entry)."""
+"""C06 - equivalent entry points give equivalent answers (clauses: io::Read entry vs slice entry; IPv4 dispatch)."""
 from ..check import Result, e1_health
 from .c07 import inv_from_e1
 from .c08 import collect
@@ -9,8 +9,11 @@ EXPLANATION = (
     "functions are interpreted on the same symbolic bytes (the reader is modelled as a cursor over the symbolic slice: "
     "read_exact copies the next bytes or fails with UnexpectedEof when fewer remain); on every joint path the results "
     "must agree: equal header values and exactly the slice decoder's consumed length pulled from the reader, or "
-    "rejections of the same class (not enough data / the same content error value). The version-dispatch, "
-    "ethernet-vs-ether-type and ip-ether-type clauses are *not* decided by this check (see DESIGN.md).")
+    "rejections of the same class (not enough data / the same content error value).  (dispatch) the four "
+    "version-dispatching IP decoders are interpreted on a symbolic slice whose version nibble is 4 and the IPv4-specific "
+    "decoder is interpreted in each final state: same value / same error (all five LenError fields, content errors "
+    "matched through the err::ip <-> err::ipv4 naming).  NOT decided: the IPv6 half of the dispatch clause (joint walks "
+    "over extension chains exceed the time budget), ethernet-vs-ether-type and ip-ether-type clauses.")
 ASSUMPTIONS = [
     "foreign Read implementations behave like a cursor: read_exact either fills the buffer with the next bytes or "
     "fails without a value",
@@ -33,4 +36,9 @@ def check(ctx):
         out = rules_rt.run_read(F, inv_from_e1(e1), e1.get("summaries"))
         res.analysed["header_types_with_read"] = len(out)
         collect(ctx, res, out, "", spec)
+        # dispatch clause, IPv4 half: the version-dispatching decoders against the IPv4-specific ones
+        from .. import rules_agree
+        from .c05 import collect as collect_agree
+        recs = rules_agree.run(F, inv_from_e1(e1), e1.get("summaries"), rules=("dispatch",))
+        collect_agree(res, recs, "")
     return res
